@@ -9,6 +9,8 @@ RULE = ('random histories over the autoref alphabet (constructions, connectives 
         'drops in random order, collections, reorderings) with dynamic reordering off and on; '
         'histories with the node limit of the wrapped manager set through the wrapper at tight '
         'values (RuntimeError of a full table inside operations, comparisons, copies, reorderings); '
+        'JSON files that cannot be loaded (every failure kind, also files that are not reduced) into fresh, '
+        'dumping and in-use managers; '
         'the harness owns every Function object; a case is one step of one history')
 EXHAUSTIVE = {'quick': False, 'thorough': False}
 ASSUMES = ['CPython frees a Function when its last reference is deleted (the harness holds exactly one reference per handle)',
@@ -540,3 +542,15 @@ def run(ctx):
     # (last, so that the histories above are the same cases as before for a given seed)
     for i in range(24 if q else 240):
         full_table_autoref(ctx, i, ctx.rng.choice([3, 3, 4]), reordering=(i % 3 == 2))
+    # JSON files that cannot be loaded, of every failure kind (`KeyError` for an unknown
+    # identifier or a parent listed first, `AssertionError` for a negated node line,
+    # `KeyError`/`ValueError` for a bad level), also not reduced: every reference the loader
+    # took is released, so that the counts stay "in-edges + live Functions" and the manager is
+    # empty once the Functions are gone (the stream of C17; round-21 seeds)
+    from . import C17
+    rng = ctx.rng
+    for fault in ('unknown-child', 'unknown-root', 'bad-level', 'parent-first', 'negated-node'):
+        for receiver in ('fresh', 'same', 'in-use'):
+            for alias in (False, True):
+                for _ in range(1 if q else 6):
+                    C17.json_faults(ctx, rng.choice([2, 3]), receiver, fault, alias=alias, P='C08')
